@@ -93,6 +93,20 @@ class Env:
         return vals[0]
 
 
+class _RowCap(int):
+    """stands for insertmanyvalues_max_parameters: truthy, and (cap - outside) // per_row == rows"""
+    def __new__(cls, rows):
+        o = int.__new__(cls, 1 << 20)
+        o.rows = rows
+        return o
+
+    def __sub__(self, other):
+        return self
+
+    def __floordiv__(self, other):
+        return self.rows
+
+
 def env():
     global _ENV
     if _ENV is None:
@@ -118,6 +132,12 @@ def run_behaviour(beh, api, paramstyle):
     params = [{"d": "d%d" % i} for i in range(1, n + 1)]
     opts = {"insertmanyvalues_page_size": page}
     mism = []
+    # dialect.insertmanyvalues_max_parameters (SQL Server: 2099, SQLite: 32766) shrinks the page so that a statement never has more
+    # bound parameters than that; expressed here as "rows allowed per statement" through an int that answers
+    # (max_params - outside) // per_row with cfg["cap"], so the shrink bites at the spec's small scale
+    saved_max = eng.dialect.insertmanyvalues_max_parameters
+    if cfg.get("cap"):
+        eng.dialect.insertmanyvalues_max_parameters = _RowCap(cfg["cap"])
     E.keys.reset()
     script.begin(perms, "SELECT %s, d FROM %s ORDER BY rowid" % (pknames, t.name))
     got = None
@@ -185,6 +205,7 @@ def run_behaviour(beh, api, paramstyle):
         return ["%s raised %s: %s\n%s" % (api, type(ex).__name__, str(ex)[:300], traceback.format_exc()[-800:])], None
     finally:
         script.active = False
+        eng.dialect.insertmanyvalues_max_parameters = saved_max
     mism.extend(script.errors)
     # ---- every step: pages sent, table after each statement
     ins = script.inserts()
@@ -394,10 +415,10 @@ def main(chk):
     rng = random.Random(chk.seed)
     q = tlc.q
     if chk.quick:
-        consts = dict(MaxN=5, MaxPage=3)
+        consts = dict(MaxN=5, MaxPage=3, Caps={0, 1, 2})
         cap = 400
     else:
-        consts = dict(MaxN=7, MaxPage=4)
+        consts = dict(MaxN=7, MaxPage=4, Caps={0, 1, 2, 3})
         cap = 3000
     consts.update(Styles={q(s) for s in STYLES}, Sorts={True, False}, Rets={True, False})
     cfgt = tlc.cfg(constants=consts, init="InitEmit", invariants=INVS, properties=PROPS, view="View", action_constraints=["Emit"])
